@@ -206,11 +206,16 @@ func (c *Child) crashed(kind string) error {
 	c.Restarts++
 	e := &CrashError{Kind: kind, Stderr: se, Signature: signatureOf(se)}
 	if kind == "hang" {
-		// structural witness of the work-queue deadlock: the producer blocked in a channel send inside
-		// CreateWorkerJobs while no worker goroutine exists
+		// structural witnesses of a deadlock in the goroutine dump (never the elapsed time alone):
+		// (1) the producer blocked in a channel send inside CreateWorkerJobs while no worker goroutine exists;
+		// (2) every goroutine running goProbe code is parked on a channel / sync operation and none is
+		//     running, runnable or inside a system call — nothing in the process can ever wake them.
 		if strings.Contains(se, "[chan send") && strings.Contains(se, "DBWorkManager).CreateWorkerJobs") && !strings.Contains(se, "grabAndProcessWorkload") {
 			e.Deadlock = true
 			e.Signature = "deadlock: chan send in CreateWorkerJobs, no worker goroutine"
+		} else if w := allBlocked(se); w != "" {
+			e.Deadlock = true
+			e.Signature = "deadlock: every goProbe goroutine is parked on a channel or sync operation (" + w + ")"
 		} else {
 			e.Signature = "no answer within bound (inconclusive): " + e.Signature
 		}
@@ -228,4 +233,56 @@ func IsCrash(err error) (*CrashError, bool) {
 		return ce, true
 	}
 	return nil, false
+}
+
+var goroutineRe = regexp.MustCompile(`(?m)^goroutine \d+(?: gp=\S+ m=\S+(?: mp=\S+)?)? \[([^\]]+)\]:$`)
+
+// allBlocked inspects a goroutine dump: if at least one goroutine with goProbe frames is blocked in a
+// channel send/receive or WaitGroup wait, and no goroutine with goProbe (or harness main) frames is running,
+// runnable or in a system call, it returns a short description of the blocked states, else "".
+func allBlocked(dump string) string {
+	locs := goroutineRe.FindAllStringSubmatchIndex(dump, -1)
+	if len(locs) == 0 {
+		return ""
+	}
+	var blocked []string
+	for i, l := range locs {
+		end := len(dump)
+		if i+1 < len(locs) {
+			end = locs[i+1][0]
+		}
+		body := dump[l[0]:end]
+		if !strings.Contains(body, "github.com/els0r/goProbe/v4/") {
+			continue
+		}
+		state := dump[l[2]:l[3]]
+		if j := strings.IndexByte(state, ','); j >= 0 {
+			state = state[:j]
+		}
+		switch state {
+		case "chan send", "chan receive", "sync.WaitGroup.Wait", "semacquire", "sync.Mutex.Lock", "sync.RWMutex.Lock", "sync.RWMutex.RLock", "sync.Cond.Wait":
+			frame := ""
+			if m := frameRe.FindStringSubmatch(body); m != nil {
+				frame = m[1][strings.LastIndex(m[1], "/")+1:]
+			}
+			blocked = append(blocked, state+" @ "+frame)
+		case "select", "sleep", "select (no cases)":
+			// timers and watchers: idle by design, cannot unblock the others by themselves
+		default:
+			return "" // running, runnable, syscall, IO wait, GC …: the process can still make progress
+		}
+	}
+	hard := 0
+	for _, b := range blocked {
+		if strings.HasPrefix(b, "chan send") || strings.HasPrefix(b, "chan receive") || strings.HasPrefix(b, "sync.WaitGroup") {
+			hard++
+		}
+	}
+	if hard == 0 {
+		return ""
+	}
+	if len(blocked) > 4 {
+		blocked = blocked[:4]
+	}
+	return strings.Join(blocked, "; ")
 }
